@@ -436,6 +436,8 @@ void AbstractDiscreteDistribution::discretizeEqualProportions()
   double p = 1. / static_cast<double>(numberOfCategories_);
   for (i = 0; i < numberOfCategories_; i++)
   {
+    if (std::isnan(values[i]))
+      throw Exception("AbstractDiscreteDistribution::discretizeEqualProportions. A class value is not a number.");
     if (distribution_.find(values[i]) != distribution_.end())
     {
       int j = 1;
